@@ -189,4 +189,16 @@ CHECKS = {
                 "results are compared as point sets through the library's Equals (itself covered by C02).",
         "technique": "TLA+ neutral-answer table and transparency action property; TLC-enumerated emptiness shapes replayed by reflection + TLC trace validation of insert/remove histories",
     },
+    "C10": {
+        "text": "Purity.tla models threads calling operations on shared values: Begin records the operands' digests, End is enabled "
+                "only if the operands still have them and the result equals the memoised result for the same operation on the same "
+                "operand digests; no action writes the store and a race report has no action. TLC checks StoreConstant, MemoFunctional "
+                "and NoStuck over all interleavings of 3 threads x 2 values x 2 operations, and validates recorded histories of a "
+                "-race build (2..16 goroutines x 31 public read operations over shared geometries and a shared bulk-loaded R-tree, "
+                "unsynchronised per-goroutine buffers), each executed by two fresh processes and joined so that results must be "
+                "deterministic across goroutines, repetitions and processes.",
+        "note": TLCNOTE + "Schedules are those the Go scheduler and the race detector observe; the library has no internal "
+                "synchronisation points to gate.",
+        "technique": "TLA+ interleaving model of pure calls (TLC exhaustive) + TLC trace validation of race-detector histories joined across two processes",
+    },
 }
